@@ -5,6 +5,15 @@ V = os.path.dirname(os.path.dirname(os.path.abspath(__file__)))
 
 CHECKS = {
  # id: (level, technique, level text, level note)
+ "C08": ("exploration", "model-equality monitor after every call of parse/write/set_value/has_* histories on live handles",
+         "The Python model (list of categories/entries) is compared with the library's observable state after every call of random edit histories, and canonical text is compared byte for byte in both directions; exploration over random grammars incl. empty categories, duplicate keys and multi-byte text.",
+         "canonical grammar as stated in the property"),
+ "C09": ("exploration", "cross-codec monitor in both directions with an independent by-offset codec anchored on retail-made samples",
+         "Files built by an independent Python codec are parsed by the library and files written by the library are decoded by the Python codec, so a symmetric reader/writer mistake is visible; all race/tribe/gender codes, every value of every byte field, comment lengths 0..163 and id classes (incl. ids overlapping the marker bits) are swept.",
+         "documented offsets; additive item-id marker"),
+ "C10": ("exploration", "cross-codec monitor: independent FileInfo record parser + os.stat + hashlib.sha1; independent patch-list wire parser",
+         "Every table/list the library writes is decoded independently and every independently built one is parsed by the library; lengths cover every SHA-1 padding boundary, sizes up to 2^62.",
+         "hashlib/os.stat trusted; wire format as served by the patch servers"),
  "C11": ("exploration", "reference-model monitor: pi-derived Blowfish reference (self-checked on 16 published vectors) over recorded encrypt/decrypt calls",
          "Every recorded encrypt/decrypt of the real library is compared with an independent Blowfish whose tables are computed from pi; any altered table word, round count, key-schedule or padding step changes essentially every ciphertext, so thousands of (key,message) pairs across key lengths 8..56 and message lengths 0..4096 give high confidence; exploration because keys/messages are unbounded.",
          "reference implementation + published vectors are trusted"),
